@@ -14,6 +14,12 @@ I64RES = re.compile(r"^std::result::Result<i64, std::num::ParseIntError>$")
 TOSTR = re.compile(r"std::string::ToString>::to_string$")
 EQ = re.compile(r"std::cmp::PartialEq(<[^>]*>)?>::(eq|ne)$")
 
+# Option/Result plumbing between the parser and the addition (`as_integer().ok_or(NotInteger)?`)
+PT_OPT = re.compile(prov.PASS_THROUGH.pattern[:-1] +
+                    r"|^std::option::Option::<.*>::(ok_or|ok_or_else|unwrap_or|unwrap_or_else|unwrap_or_default|map|filter|copied|cloned)(::<.*>)?$"
+                    r"|^std::result::Result::<.*>::(map_err|map|or_else|unwrap_or|unwrap_or_else)(::<.*>)?$"
+                    r")")
+
 # (function, how the stored integer is consumed there)
 READERS = (
     ("storage::value::Value::as_integer", "return"),
@@ -190,7 +196,7 @@ def rule_int_canon(ctx, R, readers=READERS, report_site=lambda fn: True):
             for i, a in recv:
                 if op_is_const(a):
                     continue
-                P = prov.operand_origins(b, a, stop_calls=stop)
+                P = prov.operand_origins(b, a, stop_calls=stop, pass_through=PT_OPT)
                 calls = {q[1] for q in P.roots if q[0] == "call"}
                 if calls & canon_fns:
                     ok_any = True
